@@ -14,6 +14,9 @@ EXTENDS MerkleProof, Json
 CONSTANTS MaxOps,    \* number of Ref/Up/Prune operations in a behaviour (all requests together)
           MaxReq,    \* number of requests (cursor sessions, each ended by CreateProof) served by ONE prover
           Free,      \* TRUE: no depth-first discipline (any enabled operation)
+          Hold,      \* TRUE: cursor VALUES are held: any live cursor value may be used for the next Ref / Prune (take all
+                     \* children of a node first, prune / descend through the earlier ones later); FALSE: one current cursor
+                     \* (a stack: Ref pushes a new value, Up goes back to the value held before)
           TwoStep    \* TRUE: the source of the prover is the tree under an earlier proof Proof(tree, A) (a partial view with
                      \* pruned branches, root of level 1); A ranges over the single positions and the pairs of incomparable
                      \* positions of depth <= 2.  The second-step cursor then reaches positions outside A, next to A's pruned
@@ -36,52 +39,64 @@ Trees == <<
   << C(A, <<2, 3>>), C(B, <<4, 5>>), C(B, <<5, 4>>), C(D, <<>>), C(F, <<>>) >>  \* 11 mirrored children (not equal)
 >>
 
-VARIABLES s, nxt, hist, exph, cur, open, nops, done, first
-vars == <<s, nxt, hist, exph, cur, open, nops, done, first>>
+VARIABLES T, hs, stk, ps, nxt, hist, exph, cur, open, nops, done, first
+vars == <<T, hs, stk, ps, nxt, hist, exph, cur, open, nops, done, first>>
+\* T: the source table of the prover; hs: the cursor values of the open session (handle h = hs[h + 1], a path; handle 0 is
+\* the value Cursor() returned); stk: (not Hold) the handles from the root value to the current one; ps: the session's prune
+\* set; nxt: (depth-first discipline) for every handle on stk the smallest reference position still allowed below it;
+\* hist: the script (events as the harness replays and records them); exph: for every Create the hash of the proof the
+\* specification requires; cur: id of the open session; nops: Ref/Up/Prune operations so far
 \* first: <<index of the original tree, prune set A of the first proof>> (A = {} and the tree itself is the source unless TwoStep)
 RECURSIVE PathsBelow(_, _, _, _)
-PathsBelow(T, j, p, d) == IF d = 0 THEN {} ELSE UNION {{Append(p, k)} \cup PathsBelow(T, T[j].r[k], Append(p, k), d - 1) : k \in 1..Len(T[j].r)}
-FirstSets(T) == LET ps == PathsBelow(T, 1, <<>>, 2) IN
-                {{p} : p \in ps} \cup {{pp[1], pp[2]} : pp \in {x \in ps \X ps : x[1] # x[2] /\ ~PathPrefix(x[1], x[2]) /\ ~PathPrefix(x[2], x[1])}}
+PathsBelow(TT, j, p, d) == IF d = 0 THEN {} ELSE UNION {{Append(p, k)} \cup PathsBelow(TT, TT[j].r[k], Append(p, k), d - 1) : k \in 1..Len(TT[j].r)}
+FirstSets(TT) == LET pp == PathsBelow(TT, 1, <<>>, 2) IN
+                {{p} : p \in pp} \cup {{x[1], x[2]} : x \in {y \in pp \X pp : y[1] # y[2] /\ ~PathPrefix(y[1], y[2]) /\ ~PathPrefix(y[2], y[1])}}
 Source(t, fs) == IF fs = {} THEN Trees[t] ELSE WithMasks(Body(Proof(Trees[t], 1, fs)))
-\* s: cursor state of the open session; nxt: for every prefix of its path (index Len+1) the smallest reference position
-\* still allowed below it; hist: the script (events as the harness replays and records them); exph: for every Create the
-\* hash of the proof the specification requires; cur: id of the open session; nops: Ref/Up/Prune operations so far
-Ev(k, i) == [k |-> k, c |-> cur, i |-> i]
-Init == /\ \E t \in 1..Len(Trees) : \E fs \in (IF TwoStep THEN FirstSets(Trees[t]) ELSE {{}}) : first = <<t, fs>> /\ s = CInit(Source(t, fs), 1)
-        /\ nxt = <<1>> /\ cur = 1 /\ hist = << [k |-> "Cursor", c |-> 1, i |-> 0] >> /\ exph = <<>>
+Ev(k, h, nh, i) == [k |-> k, c |-> cur, h |-> h, nh |-> nh, i |-> i]
+CursorEv(c) == [k |-> "Cursor", c |-> c, h |-> 0, nh |-> 0, i |-> 0]
+Refs(h) == Len(T[NodeAt(T, 1, hs[h + 1])].r)
+Top == stk[Len(stk)]
+Init == /\ \E t \in 1..Len(Trees) : \E fs \in (IF TwoStep THEN FirstSets(Trees[t]) ELSE {{}}) : first = <<t, fs>> /\ T = Source(t, fs)
+        /\ hs = << <<>> >> /\ stk = <<0>> /\ ps = {} /\ nxt = <<1>> /\ cur = 1 /\ hist = << CursorEv(1) >> /\ exph = <<>>
         /\ open = TRUE /\ nops = 0 /\ done = FALSE
-DoRef(i) == /\ RefEnabled(s, i) /\ (Free \/ i >= nxt[Len(nxt)])
-            /\ s' = Ref(s, i)
+\* ---- one current cursor (stack)
+DoRef(i) == /\ i <= Refs(Top) /\ (Free \/ i >= nxt[Len(nxt)])
+            /\ hs' = Append(hs, Append(hs[Top + 1], i)) /\ stk' = Append(stk, Len(hs))
             /\ nxt' = Append([nxt EXCEPT ![Len(nxt)] = i + 1], 1)
-            /\ hist' = Append(hist, Ev("Ref", i - 1))
-DoUp == /\ UpEnabled(s) /\ s' = Up(s)
-        /\ nxt' = SubSeq(nxt, 1, Len(nxt) - 1)
-        /\ hist' = Append(hist, Ev("Up", 0))
-DoPrune == /\ (Free \/ s.path \notin s.ps)
-           /\ s' = Prune(s) /\ nxt' = nxt
-           /\ hist' = Append(hist, Ev("Prune", 0))
-Op == /\ open /\ nops < MaxOps /\ ((\E i \in 1..4 : DoRef(i)) \/ DoUp \/ DoPrune)
-      /\ nops' = nops + 1 /\ UNCHANGED <<exph, cur, open, done, first>>
-\* CreateProof on the open session: the proof is Proof(T, R, prune set of THIS session)
+            /\ hist' = Append(hist, Ev("Ref", Top, Len(hs), i - 1)) /\ ps' = ps
+DoUp == /\ Len(stk) > 1 /\ stk' = SubSeq(stk, 1, Len(stk) - 1) /\ nxt' = SubSeq(nxt, 1, Len(nxt) - 1)
+        /\ UNCHANGED <<hs, ps, hist>>                    \* no call: the program continues with the value it held before
+DoPrune == /\ (Free \/ hs[Top + 1] \notin ps)
+           /\ ps' = ps \cup {hs[Top + 1]} /\ hist' = Append(hist, Ev("Prune", Top, 0, 0)) /\ UNCHANGED <<hs, stk, nxt>>
+\* ---- held cursor values: any live value is used
+Derive(h, i) == /\ i <= Refs(h) /\ Append(hs[h + 1], i) \notin {hs[x] : x \in 1..Len(hs)}
+                /\ hs' = Append(hs, Append(hs[h + 1], i))
+                /\ hist' = Append(hist, Ev("Ref", h, Len(hs), i - 1)) /\ UNCHANGED <<stk, nxt, ps>>
+PruneH(h) == /\ hs[h + 1] \notin ps /\ ps' = ps \cup {hs[h + 1]}
+             /\ hist' = Append(hist, Ev("Prune", h, 0, 0)) /\ UNCHANGED <<hs, stk, nxt>>
+Op == /\ open /\ nops < MaxOps
+      /\ IF Hold THEN \E h \in 0..(Len(hs) - 1) : (\E i \in 1..4 : Derive(h, i)) \/ PruneH(h)
+         ELSE (\E i \in 1..4 : DoRef(i)) \/ DoUp \/ DoPrune
+      /\ nops' = nops + 1 /\ UNCHANGED <<T, exph, cur, open, done, first>>
+\* CreateProof through the current cursor value (Hold: the newest one): Proof(T, R, prune set of THIS session)
 Create == /\ open /\ open' = FALSE
-          /\ hist' = Append(hist, Ev("Create", 0))
-          /\ exph' = Append(exph, BytesToHex(ReprHash(InfoTable(CreateProof(s))[1])))
-          /\ UNCHANGED <<s, nxt, cur, nops, done, first>>
+          /\ hist' = Append(hist, Ev("Create", IF Hold THEN Len(hs) - 1 ELSE Top, 0, 0))
+          /\ exph' = Append(exph, BytesToHex(ReprHash(InfoTable(Proof(T, 1, ps))[1])))
+          /\ UNCHANGED <<T, hs, stk, ps, nxt, cur, nops, done, first>>
 \* the same prover serves another request: a new cursor session starts with an empty prune set
 NewCursor == /\ ~open /\ cur < MaxReq /\ open' = TRUE /\ cur' = cur + 1
-             /\ s' = CInit(s.T, 1) /\ nxt' = <<1>>
-             /\ hist' = Append(hist, [k |-> "Cursor", c |-> cur + 1, i |-> 0])
-             /\ UNCHANGED <<exph, nops, done, first>>
-Finish == /\ ~open /\ done' = TRUE /\ UNCHANGED <<s, nxt, hist, exph, cur, open, nops, first>>
+             /\ hs' = << <<>> >> /\ stk' = <<0>> /\ ps' = {} /\ nxt' = <<1>>
+             /\ hist' = Append(hist, CursorEv(cur + 1))
+             /\ UNCHANGED <<T, exph, nops, done, first>>
+Finish == /\ ~open /\ done' = TRUE /\ UNCHANGED <<T, hs, stk, ps, nxt, hist, exph, cur, open, nops, first>>
 Next == ~done /\ (Op \/ Create \/ NewCursor \/ Finish)
 Spec == Init /\ [][Next]_vars
 
-TableJson(T) == [i \in 1..Len(T) |-> [b |-> BitsToStr(T[i].b), x |-> T[i].x, m |-> T[i].m, r |-> [j \in 1..Len(T[i].r) |-> T[i].r[j] - 1]]]
+TableJson(TT) == [i \in 1..Len(TT) |-> [b |-> BitsToStr(TT[i].b), x |-> TT[i].x, m |-> TT[i].m, r |-> [j \in 1..Len(TT[i].r) |-> TT[i].r[j] - 1]]]
 Ch == [magic |-> "generic", idx |-> FALSE, crc |-> FALSE, cache |-> FALSE, size |-> 1, ob |-> 2, hashes |-> FALSE]
-Vector == IF first[2] = {} THEN [t |-> "walk", cells |-> TableJson(s.T), roots |-> <<0>>, script |-> hist, exphash |-> exph, reqs |-> cur]
+Vector == IF first[2] = {} THEN [t |-> "walk", cells |-> TableJson(T), roots |-> <<0>>, script |-> hist, exphash |-> exph, reqs |-> cur]
           \* two-step: the source is handed over as the first proof's bag (written by the specification); orig = the level-0 tree
-          ELSE [t |-> "walk", cells |-> TableJson(s.T), roots |-> <<0>>, script |-> hist, exphash |-> exph, reqs |-> cur,
+          ELSE [t |-> "walk", cells |-> TableJson(T), roots |-> <<0>>, script |-> hist, exphash |-> exph, reqs |-> cur,
                 orig |-> TableJson(Trees[first[1]]), srcboc |-> BytesToHex(Write(Proof(Trees[first[1]], 1, first[2]), <<1>>, Ch))]
 Emit == done => PrintT(<<"VEC", ToJson(Vector)>>)
 =============================================================================
